@@ -97,4 +97,9 @@ package receiver
 
 //@ func (*receiver.Transfer).recvGenerator
 //@   modifies *, ghost.int32sWritten, ghost.acc, ghost.objClock
-//@   ensures[C12] [update-rule] err == nil && old(rt.Dest) != "" && 0 <= old(f.Mode) && mod(div(old(f.Mode), 4096), 16) == 8 ==> (ghost.int32sWritten > old(ghost.int32sWritten) <==> old(mustRequest(entryExists(rt.DestRoot, f.Name), modeIsRegular(infoMode(destInfo(rt, f))), infoSize(destInfo(rt, f)) == f.Length, infoMSec(destInfo(rt, f)) == tsec(f.ModTime), bytesIdOf(f.Checksum, 0, 16) == rootSum(rt.DestRoot, f.Name), rt.Opts.AlwaysChecksum, rt.Opts.IgnoreTimes)))
+//@   ensures[C12] [missing-is-requested] err == nil && old(rt.Dest) != "" && 0 <= old(f.Mode) && mod(div(old(f.Mode), 4096), 16) == 8 && !old(entryExists(rt.DestRoot, f.Name)) ==> ghost.int32sWritten > old(ghost.int32sWritten)
+//@   ensures[C12] [non-regular-is-requested] err == nil && old(rt.Dest) != "" && 0 <= old(f.Mode) && mod(div(old(f.Mode), 4096), 16) == 8 && old(entryExists(rt.DestRoot, f.Name)) && !old(modeIsRegular(infoMode(destInfo(rt, f)))) ==> ghost.int32sWritten > old(ghost.int32sWritten)
+//@   ensures[C12] [size-differs-is-requested] err == nil && old(rt.Dest) != "" && 0 <= old(f.Mode) && mod(div(old(f.Mode), 4096), 16) == 8 && old(entryExists(rt.DestRoot, f.Name)) && old(modeIsRegular(infoMode(destInfo(rt, f)))) && !old(infoSize(destInfo(rt, f)) == f.Length) ==> ghost.int32sWritten > old(ghost.int32sWritten)
+//@   ensures[C12] [checksum-rule] err == nil && old(rt.Dest) != "" && 0 <= old(f.Mode) && mod(div(old(f.Mode), 4096), 16) == 8 && old(entryExists(rt.DestRoot, f.Name)) && old(modeIsRegular(infoMode(destInfo(rt, f)))) && old(infoSize(destInfo(rt, f)) == f.Length) && old(rt.Opts.AlwaysChecksum) ==> (ghost.int32sWritten > old(ghost.int32sWritten) <==> !old(bytesIdOf(f.Checksum, 0, 16) == rootSum(rt.DestRoot, f.Name)))
+//@   ensures[C12] [ignore-times-is-requested] err == nil && old(rt.Dest) != "" && 0 <= old(f.Mode) && mod(div(old(f.Mode), 4096), 16) == 8 && old(entryExists(rt.DestRoot, f.Name)) && old(modeIsRegular(infoMode(destInfo(rt, f)))) && old(infoSize(destInfo(rt, f)) == f.Length) && !old(rt.Opts.AlwaysChecksum) && old(rt.Opts.IgnoreTimes) ==> ghost.int32sWritten > old(ghost.int32sWritten)
+//@   ensures[C12] [mtime-rule] err == nil && old(rt.Dest) != "" && 0 <= old(f.Mode) && mod(div(old(f.Mode), 4096), 16) == 8 && old(entryExists(rt.DestRoot, f.Name)) && old(modeIsRegular(infoMode(destInfo(rt, f)))) && old(infoSize(destInfo(rt, f)) == f.Length) && !old(rt.Opts.AlwaysChecksum) && !old(rt.Opts.IgnoreTimes) ==> (ghost.int32sWritten > old(ghost.int32sWritten) <==> !old(infoMSec(destInfo(rt, f)) == tsec(f.ModTime)))
